@@ -447,8 +447,8 @@ def shard(seed, n, tier, mode=None):
 def main(tier, seed, cases=None):
     t0 = time.time()
     if tier == 'quick':
-        kws = [dict(seed=seed * 1000 + i, n=cases or 300, tier=tier, mode='pure') for i in range(2)]
-        kws += [dict(seed=seed * 1000 + 50 + i, n=cases or 120, tier=tier, mode='cluster') for i in range(6)]
+        kws = [dict(seed=seed * 1000 + i, n=cases or 600, tier=tier, mode='pure') for i in range(2)]
+        kws += [dict(seed=seed * 1000 + 50 + i, n=cases or 200, tier=tier, mode='cluster') for i in range(10)]
     else:
         kws = [dict(seed=seed * 1000 + i, n=cases or 5000, tier=tier, mode='pure') for i in range(4)]
         kws += [dict(seed=seed * 1000 + 50 + i, n=cases or 2000, tier=tier, mode='cluster') for i in range(12)]
